@@ -35,10 +35,10 @@ def run(rep, tier, seed):
     k = 40000 if big else 3000
     if len(recs) > k:
         recs = rnd.sample(recs, k)
-    interp.twin_check(rep, recs, seed, "c18", "inline")
+    interp.twin_check(rep, recs, seed, "c18", "inline", deviation_preds=rep.last_preds, compare=cmp)
     sim = interp.simulate_family(rep, "reuse", seed, 3000 if big else 600, cmp, devsets=[("LateEnv",)], min_size=4,
                                  MaxNodes=6, MaxDepth=4)
-    interp.twin_check(rep, [x for x in sim if any_reuse(x["doc"])], seed + 3, "c18s", "inline")
+    interp.twin_check(rep, [x for x in sim if any_reuse(x["doc"])], seed + 3, "c18s", "inline", deviation_preds=rep.last_preds, compare=cmp)
     interp.negative_control(rep, "reuse", "LeakScopeOnError", {"ScopeBalanced", "ResultIsIdeal", "CleanAtEnd"}, MaxNodes=3)
     # placement of instances: template kind x template location x anchor x way of writing the position
     pcs = geom.run_geom_family(rep, "reusepos", tier, ["RelIdentities"])
